@@ -141,7 +141,7 @@ def unjudged(cfg):
 
 
 def run(tier, seed, replay):
-    rep = common.Reporter(PROP, tier, seed, "partial")
+    rep = common.Reporter(PROP, tier, seed, "proof")
     rep.assumptions = TRUSTED
     cr = common.coq_phase(["C01"], "C01/Props.v")
     common.coq_coverage(rep, cr, "cd coq && make C01/Props.vo C01/Extract.vo && coqc -Q . V C01/Props.v (+ hygiene grep, Print Assumptions allow-list); sh ocaml/c01/build.sh", TRUSTED)
